@@ -119,7 +119,26 @@ theorem mm_decode_encode (k : Kind) (f : SFile) (h : WF f) :
   have hsame : ∀ s ∈ f.steps, s.slabs.length = s0.slabs.length :=
     fun s hs => h.same s hs s0 (by rw [hst]; simp)
   unfold mmDecode
-  rw [chunk_records f h]
+  have hwhole : ¬ ((encode f).length % (f.cells + 4) ≠ 0) := by
+    rw [encode_eq]
+    have : ∀ (ps : List (List Word)), (∀ p ∈ ps, p.length = f.cells + 4) →
+        ps.flatten.length % (f.cells + 4) = 0 := by
+      intro ps
+      induction ps with
+      | nil => intro _; simp
+      | cons a as ih =>
+        intro hp
+        simp only [List.flatten_cons, List.length_append, hp a (by simp)]
+        have := ih (fun x hx => hp x (by simp [hx]))
+        rw [Nat.add_mod, Nat.mod_self, this]; simp
+    have hz := this ((f.steps.map framedStep).flatten) (by
+      intro p hp
+      obtain ⟨fs, hfs, hp'⟩ := List.mem_flatten.mp hp
+      obtain ⟨s, hs, rfl⟩ := List.mem_map.mp hfs
+      obtain ⟨c, hc, rfl⟩ := mem_framedStep hp'
+      rw [frame_len, h.cells s hs c hc])
+    omega
+  rw [if_neg hwhole, chunk_records f h]
   simp only
   rw [leading_eq f h s0 s1 rest hst hne hm]
   have hlen := flatten_length f.steps s0.slabs.length hsame
